@@ -110,6 +110,9 @@ def aromatize_tie(ctx, spellings):
     for (sp, impl), rep in zip(meta, replies):
         ctx.count('corr_c03.aromatize')
         ctx.count('aromatize_eligible_rings_%d' % sum(rep['eligible']))
+        if sum(rep['eligible']) >= 2:
+            # guard of C03_aromatize_order_partial on graphs where the ring order could matter
+            ctx.count('aromatize_order_guard_%s' % ('holds' if rep['disjoint'] else 'fails(F3 class)'))
         if not (rep['wf'] and rep['bonded']):
             raise common.MachineryError('A-graph: ill-formed graph for %r' % sp)
         if impl['arom'] != rep['arom'] or impl['kinds'] != rep['kinds']:
